@@ -11,5 +11,6 @@ timeout 3000 make -j16
 cd ..
 ./build_driver.sh
 [ -f harness/Cargo.lock ] || cp /repo/Cargo.lock harness/Cargo.lock
+sed "s#@REPO@#/repo#" harness/Cargo.toml.in > harness/Cargo.toml
 (cd harness && RUSTFLAGS="--cfg elements_verif" cargo build --offline -q && RUSTFLAGS="--cfg elements_verif" cargo build --offline -q --release)
 echo setup done
